@@ -82,6 +82,13 @@ func (p *Program) ApplyComponent(name string, prog *Program, progFilePath string
 			continue
 		}
 
+		// every use of a component needs its own copy of the component
+		// program, because the slot bodies of the use are written into it.
+		// A use that already has its program is left alone
+		if comp.Block != nil {
+			continue
+		}
+
 		duplicateName, times := findDuplicateSlot(comp.Slots)
 
 		if times > 0 {
@@ -111,6 +118,9 @@ func (p *Program) ApplyComponent(name string, prog *Program, progFilePath string
 		}
 
 		comp.Block = prog
+
+		// the program belongs to this use only
+		break
 	}
 
 	return nil
